@@ -63,6 +63,9 @@ def perform(act, sim, rec):
             os.chmod(p, act['mode'])
     elif op == 'mkdir':
         os.makedirs(p, exist_ok=True)
+    elif op == 'mkfifo':
+        if not os.path.lexists(p):
+            os.mkfifo(p)
     elif op == 'symlink':
         # target is used verbatim: dangling links and loops are legal things for a child to leave behind
         if not os.path.lexists(p):
